@@ -65,6 +65,18 @@ impl Message for Tick {
     type Response = ();
 }
 
+/// Broadcast messages for `register_child` / `send_to_children` (two buckets besides `()`).
+#[derive(Clone)]
+pub struct Bc(pub String, pub i64);
+impl Message for Bc {
+    type Response = ();
+}
+#[derive(Clone)]
+pub struct Bc2(pub String, pub i64);
+impl Message for Bc2 {
+    type Response = ();
+}
+
 /// Per-actor configuration of callback scripts (looked up by the actor task's name).
 #[derive(Clone, Debug, Default, Serialize, Deserialize)]
 pub struct ActorScripts {
@@ -80,6 +92,10 @@ pub struct World {
     pub ninst: u64,
     /// started() calls seen per actor name
     pub starts: HashMap<String, i64>,
+    /// broadcasts issued per actor name
+    pub bcasts: HashMap<String, i64>,
+    /// unit broadcast copies handled per actor name
+    pub units: HashMap<String, i64>,
 }
 thread_local! { pub static WORLD: RefCell<World> = RefCell::new(World::default()); }
 
@@ -97,10 +113,12 @@ fn new_inst() -> u64 {
 pub struct H<const K: usize> {
     pub inst: u64,
     pub st: Vec<MsgId>,
+    /// broadcasts issued by this actor's context (per actor task, survives recreate: kept in WORLD)
+    unit_seen: i64,
 }
 impl<const K: usize> H<K> {
     pub fn new() -> Self {
-        H { inst: new_inst(), st: Vec::new() }
+        H { inst: new_inst(), st: Vec::new(), unit_seen: 0 }
     }
 }
 impl<const K: usize> Default for H<K> {
@@ -168,6 +186,34 @@ impl<const K: usize> H<K> {
                     ),
                 }
                 ev(json!({"ev": "eff", "task": me, "e": e.e, "n": e.n, "s": e.s, "res": "ok"}));
+            }
+            "add_child" | "register_bc" | "register_bc2" => {
+                let res = match crate::scenario::take_child(&e.s, &me) {
+                    Some(child) => {
+                        match e.e.as_str() {
+                            "add_child" => ctx.add_child(child.into_sender_unit()),
+                            "register_bc" => ctx.register_child::<Bc>(child.into_sender_bc()),
+                            _ => ctx.register_child::<Bc2>(child.into_sender_bc2()),
+                        }
+                        "ok"
+                    }
+                    None => "none",
+                };
+                ev(json!({"ev": "eff", "task": me, "e": e.e, "n": 0, "s": e.s, "res": res}));
+            }
+            "broadcast_unit" | "broadcast_bc" | "broadcast_bc2" => {
+                let bn = WORLD.with(|w| {
+                    let mut w = w.borrow_mut();
+                    let n = w.bcasts.entry(me.clone()).or_insert(0);
+                    *n += 1;
+                    *n
+                });
+                match e.e.as_str() {
+                    "broadcast_unit" => ctx.send_to_children(()),
+                    "broadcast_bc" => ctx.send_to_children(Bc(me.clone(), 1000 + bn)),
+                    _ => ctx.send_to_children(Bc2(me.clone(), 1000 + bn)),
+                }
+                ev(json!({"ev": "eff", "task": me, "e": e.e, "n": 0, "s": "", "res": "ok"}));
             }
             "panic" => {
                 ev(json!({"ev": "eff", "task": me, "e": "panic", "n": 0, "res": "ok"}));
@@ -247,6 +293,29 @@ impl<const K: usize> Handler<SMsg> for H<K> {
 impl<const K: usize> Handler<Tick> for H<K> {
     async fn handle(&mut self, ctx: &mut Context<Self>, msg: Tick) {
         self.work(ctx, Desc { m: (msg.timer.clone(), msg.k), scr: vec![], src: "timer" }).await;
+    }
+}
+impl<const K: usize> Handler<()> for H<K> {
+    async fn handle(&mut self, ctx: &mut Context<Self>, _msg: ()) {
+        let me = cur_task();
+        self.unit_seen += 1;
+        let n = WORLD.with(|w| {
+            let mut w = w.borrow_mut();
+            let n = w.units.entry(me.clone()).or_insert(0);
+            *n += 1;
+            *n
+        });
+        self.work(ctx, Desc { m: ("unit".into(), n), scr: vec![], src: "parent" }).await;
+    }
+}
+impl<const K: usize> Handler<Bc> for H<K> {
+    async fn handle(&mut self, ctx: &mut Context<Self>, msg: Bc) {
+        self.work(ctx, Desc { m: (msg.0, msg.1), scr: vec![], src: "parent" }).await;
+    }
+}
+impl<const K: usize> Handler<Bc2> for H<K> {
+    async fn handle(&mut self, ctx: &mut Context<Self>, msg: Bc2) {
+        self.work(ctx, Desc { m: (msg.0, msg.1), scr: vec![], src: "parent" }).await;
     }
 }
 impl<const K: usize> Handler<CMsg> for H<K> {
